@@ -1177,7 +1177,7 @@ impl<'de, 'e> de::Deserializer<'de> for YamlDeserializer<'de, 'e> {
                 let is_plain = matches!(style, ScalarStyle::Plain);
                 // Treat all YAML null-like scalars (null, ~, empty) as null when typeless
                 // (`!!str null` is the string, not a null).
-                if scalar_is_nullish(value, style) && tag != &SfTag::String {
+                if scalar_is_nullish(value, style) && tag != &SfTag::String && tag != &SfTag::Binary {
                     let _ = self.ev.next()?; // consume
                     return visitor.visit_unit();
                 }
@@ -1655,13 +1655,17 @@ impl<'de, 'e> de::Deserializer<'de> for YamlDeserializer<'de, 'e> {
                 visitor.visit_none()
             }
 
-            // YAML null forms as scalars → None (`!!str null` is the string, not a null)
+            // YAML null forms as scalars → None (`!!str null` is the string and `!!binary null`
+            // three bytes, not a null)
             Some(Ev::Scalar {
                 value: s,
                 style,
                 tag,
                 ..
-            }) if scalar_is_nullish_for_option(s, style) && *tag != SfTag::String => {
+            }) if scalar_is_nullish_for_option(s, style)
+                && *tag != SfTag::String
+                && *tag != SfTag::Binary =>
+            {
                 let _ = self.ev.next()?; // consume the scalar
                 visitor.visit_none()
             }
